@@ -134,7 +134,8 @@ struct MdSubject : Subject {
         Point lo, hi;
         minmax(a, b, lo, hi, std::make_index_sequence<D>());
         uint64_t h = 7; size_t budget = pts.size() + 2;
-        for (auto it = idx->range(lo, hi); it != idx->end() && budget--; ++it) { h = h * 1000003 + std::get<0>(*it); step_yield(); }
+        size_t steps = 0;
+        for (auto it = idx->range(lo, hi); it != idx->end() && budget--; ++it) { h = h * 1000003 + std::get<0>(*it); if (steps++ < 16 || steps % 64 == 0) step_yield(); }
         return h;
     }
     template<size_t... I> static void minmax(const Point &a, const Point &b, Point &lo, Point &hi, std::index_sequence<I...>) {
